@@ -461,7 +461,7 @@ void runHttp(const Plan& p)
 
 } // namespace
 
-REGISTER_SCENARIO(c10_http, "C10", "http_exchange", genHttp, runHttp, 12000, 600000, {4, 16, 64, 256}, 0, 6000000, 300.0,
+REGISTER_SCENARIO(c10_http, "C10", "http_exchange", genHttp, runHttp, 12000, 600000, {4, 16, 64, 256}, 0, 8000000, 30000.0,
                   "non-trivial: >=2 requests in one run (handlers can overlap) or a body above one 16000-byte read block; distinct by plan hash x context-switch signature",
                   "src/Http.cpp (client, headers, body, chunked decoding, files, ranges), src/HttpServer.cpp, src/Socket.cpp, src/SocketServer.cpp, src/File.cpp, src/Xdl.cpp/Var.cpp (JSON bodies), Thread.h",
                   "network (TCP stream stub with fragmentation, short sends, latency, bounded send buffer), disk (/sim/www), clock, pthread primitives; raw clients and their HTTP reader are harness code", false);
